@@ -502,11 +502,11 @@ func c05Check(c *Ctx, q c05Query, lines []string, shard int) {
 }
 
 var c05Shapes = map[string][]string{
-	"generickv": {"k=a|v=1|c=A", "k=a|v=2.5|c=A", "k=b|v=-3|c=B", "k=a|c=A", "k=a|v=x|c=A", "k=b|w=7", "k=a|v=10", "k=b|v=-1|c=B"},
+	"generickv": {"k=a|v=1|c=A", "k=a|v=2.5|c=A", "k=b|v=-3|c=B", "k=a|c=A", "k=a|v=x|c=A", "k=b|w=7", "k=a|v=0|c=A", "k=b|v=-1|c=B", "k=a|v=-1|c=A"},
 	"default": {"INFO|20211002-071209|1|f.go:1|8|10|0|0.1|1h|MAPREDUCE:T|k=a|v=1|c=A", "INFO|20211002-071209|1|f.go:1|8|10|0|0.1|1h|MAPREDUCE:T|k=a|v=2.5|c=A",
 		"INFO|20211002-071209|1|f.go:1|8|10|0|0.1|1h|MAPREDUCE:T|k=b|v=-3|c=B", "INFO|20211002-071209|1|f.go:1|8|10|0|0.1|1h|MAPREDUCE:T|k=a|c=A",
 		"WARN|20211002-071209|1|f.go:1|8|10|0|0.1|1h|MAPREDUCE:T|k=a|v=100|c=A", "INFO|20211002-071209|1|f.go:1|8|10|0|0.1|1h|MAPREDUCE:U|k=b|v=9", "not a mapreduce line"},
-	"csv": {"a,1,A", "a,2.5,A", "b,-3,B", "a,,A", "a,x,A", "b,-1,B"},
+	"csv": {"a,1,A", "a,2.5,A", "b,-3,B", "a,,A", "a,x,A", "b,0,B"},
 }
 
 func c05Queries(full bool) (out []c05Query) {
